@@ -52,7 +52,8 @@ def verifies(h, r, s, Q):
     return X is not None and X[0] % N == r
 
 
-@family("py_ecc.secp256k1.secp256k1.ecdsa_raw_", "py_ecc.secp256k1.secp256k1.deterministic_generate_k")
+@family("py_ecc.secp256k1.secp256k1.ecdsa_raw_", "py_ecc.secp256k1.secp256k1.deterministic_generate_k",
+        "py_ecc.secp256k1.secp256k1.bytes_to_int")
 class EcdsaFamily:
     def gen(self, fn, rng, hint):
         rb = lambda n: bytes(rng.randrange(256) for _ in range(n))
